@@ -145,7 +145,7 @@ def run(tier):
                     for k, v in (res.get("stats") or {}).items():
                         agg.stats[k] += v
                     for vres in res.get("violating", []):
-                        report.add_violation(vres, 0, scratch)
+                        report.add_violation(vres, 0, scratch, pool=pool)
                     return
                 agg.add(group, job, res, bool(res.get("nontrivial")), res.get("dkey"))
                 for c in res.get("cells", []):
@@ -153,7 +153,7 @@ def run(tier):
                 if job.get("want_trace") and res.get("trace") and len(agg.samples) < 3:
                     agg.samples.append(_sample_of(res["trace"]))
                 if res.get("status") == "violation":
-                    report.add_violation(res, 0, scratch)
+                    report.add_violation(res, 0, scratch, pool=pool)
                     if len(report.violations) >= report.max_reports:
                         pool.stop = True
             pool.run({"A": a_jobs()}, on_result, deadline=t0 + wall)
